@@ -259,7 +259,7 @@ def strategies(tier):
         "kind": st.just("worker"),
         "chunks": st.lists(st.lists(st.integers(0, 9), max_size=4), max_size=6),
         "sentinel": st.booleans(),
-        "quota": st.sampled_from([1, 2, 3, 4, None, None]),
+        "quota": st.sampled_from([1, 2, 3, 4, None, None, 0]),
         "rq_max": st.sampled_from([0, 0, 1, 2]),
     })
     parts = [("worker-level-fault-enumeration", worker, 300000 if big else 6000)]
